@@ -1016,6 +1016,15 @@ class Interp:
         if self.on_call:
             self.on_call(st, fr, site, t, args)
 
+        # calls yielding Option<Result<..>> (iterator items): fallible sites too
+        if dest_ty.startswith('std::option::Option<std::result::Result<'):
+            self.fallible_sites.append((site, rdef or decl))
+            if self.fail_site is not None and site == self.fail_site:
+                ret = ('ret', site, rdef or decl)
+                st.eff.append(('call', decl, rdef, tuple(args), site, ret))
+                self.write(st, dest, SOME(ERR(('err', site))))
+                return 'next'
+
         # panics
         if decl in PANIC_DEFS or (rdef in PANIC_DEFS):
             st.eff.append(('panic', decl, site, fn['def'], tuple(t.get('mac', []))))
